@@ -271,7 +271,7 @@ theorem flagInv_init (x y : Ep) (h1 : x.allClientsDropped = false) (h2 : x.liste
     (h3 : x.goodbyeSent = false) (h4 : y.remoteClientDropped = false) (h5 : y.remoteListenerDropped = false)
     (h6 : y.goodbyeReceived = false) (h7 : y.clientDroppedQueued = 0) : FlagInv x y [] :=
   ⟨by simp [h1, h4, b2n], by simp [h2, h5, b2n], by simp [h3, h6, b2n], rfl, fun _ => rfl, by simp [h7],
-   fun h => by rw [h3] at h; simp at h⟩
+   fun h => by rw [h3] at h; simp at h, fun _ => rfl⟩
 
 theorem inv3_init (mpA cqA mpB cqB : Nat) : Inv3 (init mpA cqA mpB cqB) :=
   ⟨inv2_init mpA cqA mpB cqB, flagInv_init _ _ rfl rfl rfl rfl rfl rfl rfl, flagInv_init _ _ rfl rfl rfl rfl rfl rfl rfl,
